@@ -209,7 +209,7 @@ func isStringPos(fn string, pos int) bool {
 
 func badValue(kind string) any {
 	switch kind {
-	case "undefined", "NaN", "Infinity", "-Infinity", "object", "array":
+	case "undefined", "NaN", "Infinity", "-Infinity", "object", "array", "bigint", "boxedString", "boxedNumber", "symbol", "function", "date":
 		return map[string]any{"$": kind}
 	case "null":
 		return nil
@@ -354,7 +354,7 @@ func checkC20(c c20Case) verdict {
 }
 
 var c20Main = newPart("C20", "calls",
-	"rapid: call lists (a pure function of the seed) executed by Node against the wasm module built from the working tree and loaded through otp-js/src/index.js; each call is made via globalThis.<name> AND via the object the package exports, followed by a well-formed probe; arguments: counters/timestamps 0..2^53 (boundaries 2^31, 2^32, 2^53), fractional numbers (truncated), digits '6','8','9','10' and unknown spellings, three hashes and unknown spellings, periods 1..3600, skews 0..10, codes at window distance -(s+2)..+(s+2) and edited; malformed: every argument position x {undefined, null, NaN, -1, -1.5, 1e300, 2^63, +-Infinity, true, {}, [], wrong-kind string/number, empty string}, too few / too many arguments, skew 11, period 0; oracle: native library AND independent reference for well-formed calls, 'error:' string for malformed ones, probe still correct; non-trivial = distance != 0 or digits != '6' or edited code or fractional number or malformed",
+	"rapid: call lists (a pure function of the seed) executed by Node against the wasm module built from the working tree and loaded through otp-js/src/index.js; each call is made via globalThis.<name> AND via the object the package exports, followed by a well-formed probe; arguments: counters/timestamps 0..2^53 (boundaries 2^31, 2^32, 2^53), fractional numbers (truncated), digits '6','8','9','10' and unknown spellings, three hashes and unknown spellings, periods 1..3600, skews 0..10, codes at window distance -(s+2)..+(s+2) and edited; malformed: every argument position x {undefined, null, NaN, -1, -1.5, 1e300, 2^63, +-Infinity, true, {}, [], a BigInt, a boxed String / Number object, a Symbol, a function, a Date, wrong-kind string/number, empty string}, too few / too many arguments, skew 11, period 0; oracle: native library AND independent reference for well-formed calls, 'error:' string for malformed ones, probe still correct; non-trivial = distance != 0 or digits != '6' or edited code or fractional number or malformed",
 	checkC20)
 
 func drawC20Call(t *rapid.T) c20Call {
@@ -423,7 +423,7 @@ func drawC20Call(t *rapid.T) c20Call {
 		default:
 			c.BadPos = rapid.IntRange(0, nargs-1).Draw(t, "badPos")
 			if isStringPos(c.Fn, c.BadPos) {
-				vals := []string{"undefined", "null", "NaN", "-1", "1e300", "Infinity", "true", "object", "array", "number", "empty"}
+				vals := []string{"undefined", "null", "NaN", "-1", "1e300", "Infinity", "true", "object", "array", "number", "empty", "bigint", "boxedString", "symbol", "function", "date"}
 				if c.Fn == "generateOTPURL" && c.BadPos == 0 {
 					vals = append(vals, "badtype", "badtype", "badtype")
 				}
@@ -432,7 +432,7 @@ func drawC20Call(t *rapid.T) c20Call {
 				}
 				c.BadVal = rapid.SampledFrom(vals).Draw(t, "badStr")
 			} else {
-				vals := []string{"undefined", "null", "NaN", "-1", "-0.5", "1e300", "2^63", "Infinity", "-Infinity", "true", "object", "array", "string"}
+				vals := []string{"undefined", "null", "NaN", "-1", "-0.5", "1e300", "2^63", "Infinity", "-Infinity", "true", "object", "array", "string", "bigint", "boxedNumber", "symbol", "function", "date"}
 				// out-of-range values of the windowed / periodic parameters
 				switch {
 				case (c.Fn == "validateHOTP" || c.Fn == "validateTOTP") && c.BadPos == 5:
